@@ -189,98 +189,4 @@ example : (bisphToCart (2 : ℚ) (3 / 5) (4 / 5) (5 / 3) (4 / 3) (5 / 13) (12 / 
     (by norm_num) (by norm_num) (by norm_num)
 
 end
-/-! ### 3. the component order is the order of the differential operators: polar and spherical grids
-
-The analogue of `operators_use_component_order_cyl` (Props/C19.lean) for the other two curvilinear grid classes,
-relative to C01's model of the operator kernels (`Model/Stencil.lean`, tied to
-`pde/backends/numba/operators/{polar_sym,spherical_sym}.py` by the check of C01): with `ir, iθ, iφ` the indices
-`get_axis_index` returns for the NAMES `r, θ, φ`,
-* the divergence differentiates component `ir` (adds `a_r / r` resp. `2 a_r / r`) and reads no other component
-  (all branches: conservative or not, every finite-difference method),
-* the gradient of a scalar stores `∂_r` as component `ir` and `0` as the other components,
-* the vector gradient and the tensor divergence pair the curvature terms with the components named `r`, `θ`, `φ`
-  as the continuum formulas do (`(∇v)_φφ = v_r / r`, `(∇·T)_r = ∂_r T_rr + (T_rr - T_φφ)/r`, ...).
-On these two classes `axes ++ axes_symmetric = c.axes`, so this is also the order of `_vector_to_cartesian`
-(`order_consistent`). -/
-
-section
-open PdeVerif.Stencil
-variable {K : Type} [Field K]
-
-/-- **C19** polar grids: the operators act on the components in the order `get_axis_index` reports -/
-theorem operators_use_component_order_polar (n : ℕ) (r : Int → K) (dr : K) (a : Arr K) (m : Method) (i : Int) :
-    ∃ ir iφ : ℕ, getAxisIndex .polar n .r = some ir ∧ getAxisIndex .polar n .φ = some iφ ∧
-      polarDivergence r dr a i =
-        (a [(ir : Int), i+1] - a [(ir : Int), i-1]) / (((2:Nat):K) * dr) + a [(ir : Int), i] / r i ∧
-      (∀ b : Arr K, (∀ k, b [(ir : Int), k] = a [(ir : Int), k]) →
-        polarDivergence r dr b i = polarDivergence r dr a i) ∧
-      polarGradient m dr a ir i = d1 m dr a [i] 0 ∧
-      polarGradient m dr a iφ i = ((0:Nat):K) ∧
-      polarVectorGradient r dr a ir ir i = (a [(ir : Int), i+1] - a [(ir : Int), i-1]) / (((2:Nat):K) * dr) ∧
-      polarVectorGradient r dr a ir iφ i = -(a [(iφ : Int), i]) / r i ∧
-      polarVectorGradient r dr a iφ ir i = (a [(iφ : Int), i+1] - a [(iφ : Int), i-1]) / (((2:Nat):K) * dr) ∧
-      polarVectorGradient r dr a iφ iφ i = a [(ir : Int), i] / r i ∧
-      polarTensorDivergence r dr a ir i =
-        (a [(ir : Int), (ir : Int), i+1] - a [(ir : Int), (ir : Int), i-1]) / (((2:Nat):K) * dr)
-          + (a [(ir : Int), (ir : Int), i] - a [(iφ : Int), (iφ : Int), i]) / r i ∧
-      polarTensorDivergence r dr a iφ i =
-        (a [(iφ : Int), (ir : Int), i+1] - a [(iφ : Int), (ir : Int), i-1]) / (((2:Nat):K) * dr)
-          + (a [(ir : Int), (iφ : Int), i] + a [(iφ : Int), (ir : Int), i]) / r i := by
-  refine ⟨0, 1, rfl, rfl, rfl, ?_, rfl, rfl, rfl, rfl, rfl, rfl, rfl, rfl⟩
-  intro b hb
-  simp only [polarDivergence]
-  have := hb (i+1); have := hb (i-1); have := hb i
-  simp_all
-
-/-- **C19** spherical grids: the same -/
-theorem operators_use_component_order_spherical (n : ℕ) (r : Int → K) (dr : K) (a : Arr K) (m : Method)
-    (cons : Bool) (i : Int) :
-    ∃ ir iθ iφ : ℕ, getAxisIndex .spherical n .r = some ir ∧ getAxisIndex .spherical n .θ = some iθ ∧
-      getAxisIndex .spherical n .φ = some iφ ∧
-      sphDivergence false m r dr a i = d1 m dr a [(ir : Int), i] 1 + ((2:Nat):K) / r i * a [(ir : Int), i] ∧
-      (∀ b : Arr K, (∀ k, b [(ir : Int), k] = a [(ir : Int), k]) →
-        sphDivergence cons m r dr b i = sphDivergence cons m r dr a i) ∧
-      sphGradient m dr a ir i = d1 m dr a [i] 0 ∧
-      sphGradient m dr a iθ i = ((0:Nat):K) ∧
-      sphGradient m dr a iφ i = ((0:Nat):K) ∧
-      sphVectorGradient m r dr a ir ir i = d1 m dr a [(ir : Int), i] 1 ∧
-      sphVectorGradient m r dr a iθ iθ i = a [(ir : Int), i] / r i ∧
-      sphVectorGradient m r dr a iφ iφ i = a [(ir : Int), i] / r i ∧
-      sphTensorDivergence false r dr a ir i =
-        (a [(ir : Int), (ir : Int), i+1] - a [(ir : Int), (ir : Int), i-1]) / (((2:Nat):K) * dr)
-          + ((2:Nat):K) * (a [(ir : Int), (ir : Int), i] - a [(iφ : Int), (iφ : Int), i]) / r i ∧
-      sphTensorDivergence false r dr a iθ i =
-        (a [(iθ : Int), (ir : Int), i+1] - a [(iθ : Int), (ir : Int), i-1]) / (((2:Nat):K) * dr)
-          + ((2:Nat):K) * a [(iθ : Int), (ir : Int), i] / r i ∧
-      sphTensorDivergence false r dr a iφ i =
-        (a [(iφ : Int), (ir : Int), i+1] - a [(iφ : Int), (ir : Int), i-1]) / (((2:Nat):K) * dr)
-          + (((2:Nat):K) * a [(iφ : Int), (ir : Int), i] + a [(ir : Int), (iφ : Int), i]) / r i := by
-  refine ⟨0, 1, 2, rfl, rfl, rfl, rfl, ?_, rfl, rfl, rfl, rfl, rfl, rfl, rfl, rfl, rfl⟩
-  intro b hb
-  have h1 := hb (i+1); have h2 := hb (i-1); have h3 := hb i
-  cases cons <;> cases m <;> simp_all [sphDivergence, d1, shift]
-
-/-- **C19** spherical grids, the remaining tensor kernels (conservative tensor divergence, double divergence in
-both forms): they read exactly the components named `(r, r)` and `(φ, φ)` - with `ir, iφ` the indices
-`get_axis_index` returns for the names - and the conservative tensor divergence stores its result as component
-`ir` (`0` as the components `iθ`, `iφ`) -/
-theorem operators_use_component_order_spherical_tensor (n : ℕ) (r : Int → K) (dr : K) (a : Arr K) (cons : Bool)
-    (i : Int) :
-    ∃ ir iθ iφ : ℕ, getAxisIndex .spherical n .r = some ir ∧ getAxisIndex .spherical n .θ = some iθ ∧
-      getAxisIndex .spherical n .φ = some iφ ∧
-      (∀ b : Arr K, (∀ k, b [(ir : Int), (ir : Int), k] = a [(ir : Int), (ir : Int), k]) →
-        (∀ k, b [(iφ : Int), (iφ : Int), k] = a [(iφ : Int), (iφ : Int), k]) →
-        sphTensorDivergence true r dr b ir i = sphTensorDivergence true r dr a ir i ∧
-        sphTensorDoubleDivergence cons r dr b i = sphTensorDoubleDivergence cons r dr a i) ∧
-      sphTensorDivergence true r dr a iθ i = ((0:Nat):K) ∧
-      sphTensorDivergence true r dr a iφ i = ((0:Nat):K) := by
-  refine ⟨0, 1, 2, rfl, rfl, rfl, ?_, rfl, rfl⟩
-  intro b hb hp
-  have h1 := hb (i+1); have h2 := hb (i-1); have h3 := hb i
-  have p1 := hp (i+1); have p2 := hp (i-1); have p3 := hp i
-  constructor
-  · simp_all [sphTensorDivergence]
-  · cases cons <;> simp_all [sphTensorDoubleDivergence]
-
-end
 end PdeVerif.Coords
